@@ -841,6 +841,12 @@ func (sc *specCtx) call(n *SCall) SV {
 		dn, ds, _, _ := e.mapArrs(m.Ty)
 		mt := sc.mat(m)
 		return SV{T: fmt.Sprintf("(and (not (= %s Nil)) (select (select %s %s) %s))", mt, e.heapGet(sc.cur(), dn, ds), mt, sc.mat(k)), Ty: boolT}
+	case "visited":
+		vs, ok := sc.vars["$visited"]
+		if !ok {
+			return sc.fail("visited() outside the invariant of a range-over-map loop")
+		}
+		return SV{T: fmt.Sprintf("(select %s %s)", vs.T, sc.mat(arg(0))), Ty: boolT}
 	case "dom":
 		m := arg(0)
 		dn, ds, _, _ := e.mapArrs(m.Ty)
